@@ -93,8 +93,8 @@ def _batch(pts):
             continue
         if got != want:
             bad.append((l, t, nb, f"reconstructed {got}, RFC 9000 A.3 gives {want}"))
-        elif la != max(l, want):
-            bad.append((l, t, nb, f"largest after = {la}, expected max = {max(l, want)}"))
+        elif la not in (l, max(l, want)):     # (raised at once, or left for later -- e.g. until the packet is authenticated; never anything else)
+            bad.append((l, t, nb, f"largest after = {la}, expected {l} or {max(l, want)}"))
     return bad, len(pts)
 
 
@@ -106,6 +106,7 @@ def _history(seed):
     sess = mk_session()
     types = [QuicPacketType.INITIAL, QuicPacketType.HANDSHAKE, QuicPacketType.RTT_1, QuicPacketType.RTT_O]
     largest = {}
+    before = {}
     bad = []
     steps = []
     # packet-number spaces as RFC 9000 12.3 defines them (0-RTT and 1-RTT share the application data space) -- NOT taken from the code
@@ -130,16 +131,22 @@ def _history(seed):
         t = pn % win
         st = Stub()
         st.isserver, st.packet_type, st.packet_num = srv, pt, t.to_bytes(nb, "big")
+        tab = sess.packet_number_server if srv else sess.packet_number_client
+        if l is not None and PACKET_TYPE_MAP[pt] in tab and tab[PACKET_TYPE_MAP[pt]] != l:
+            # the method did not raise `largest` itself on the previous packet of this space: an implementation may do that elsewhere (e.g. after
+            # authentication, as RFC 9000 A.3 words it).  The pure function is judged here; that the session MAINTAINS `largest` is judged on real
+            # sessions (trace clause `Ev.largest = largest[dir][space]` of TraceQuic on histories with gaps and reordering, below)
+            if tab[PACKET_TYPE_MAP[pt]] != before.get(key):
+                bad.append(f"history step {len(steps) + 1}: largest of the space is {tab[PACKET_TYPE_MAP[pt]]}, expected {l} (or untouched)")
+                break
+            tab[PACKET_TYPE_MAP[pt]] = l
+        before[key] = tab.get(PACKET_TYPE_MAP[pt])
         got = int.from_bytes(sess.get_full_packet_number(st), "big")
         steps.append((srv, pt.name, pn, nb))
         if got != pn:
             bad.append(f"history step {len(steps)}: dir={'s' if srv else 'c'} space={pt.name} sent {pn} ({nb} bytes) after largest {l}: reconstructed {got}")
             break
         largest[key] = pn if l is None else max(l, pn)
-        tab = sess.packet_number_server if srv else sess.packet_number_client
-        if PACKET_TYPE_MAP[pt] in tab and tab[PACKET_TYPE_MAP[pt]] != largest[key]:
-            bad.append(f"history step {len(steps)}: largest of the space is {tab[PACKET_TYPE_MAP[pt]]}, expected {largest[key]}")
-            break
     return bad, steps
 
 
@@ -221,6 +228,26 @@ def run(chk):
             chk.violation("connection with 1-RTT packet numbers from %s: %s" % (res["params"]["pn_start"], res["why"]),
                           dict(behaviour=res["b"], seed=res["seed"], params=res["params"], why=res["why"]))
     chk.extra["largest_packet_number_decrypted_end_to_end"] = maxpn
+    # "histories of packets arriving with gaps and reordering" on real sessions: Quic.tla behaviours with a delayed datagram and packet-number gaps;
+    # besides the export, the hook events are validated against TraceQuic -- the `largest` the session holds when it reconstructs a number must be
+    # the maximum of the numbers of that space and direction processed before (never lowered by a late packet, never forgotten)
+    late = c02.gen(chk, dict(ku, AllowLate="TRUE", MaxApp="5", Retries="{FALSE}"), 12 if quick else 150, chk.seed + 9)
+    late = [b for b in late if [d["sn"] for d in b["hist"]] != sorted(d["sn"] for d in b["hist"])]
+    rng.shuffle(late)
+    ljobs = [(b, rng.randrange(1 << 30), dict(c_cid_len=rng.choice([0, 8]), s_cid_len=rng.choice([4, 8]), pnlen={"c": rng.choice([2, 3]), "s": rng.choice([2, 4])},
+                                                pn_gaps=rng.choice([None, "small", "small"])), []) for b in late[: 150 if quick else 3000]]
+    runs = []
+    for res in pool_map(c02._one, ljobs):
+        if "machinery" in res:
+            raise MachineryError("harness: " + res["machinery"])
+        chk.evaluations += 1
+        if not res["ok"]:
+            chk.violation("connection with a delayed datagram: %s" % res["why"], dict(behaviour=res["b"], seed=res["seed"], params=res["params"], why=res["why"]))
+        elif res["events"]:
+            runs.append(dict(events=res["events"], pkts=res["pkts"], b=res["b"], seed=res["seed"], params=res["params"], retry=res["b"]["retry"]))
+    from harness.quictrace import validate_quic
+    validate_quic(chk, runs)
+    chk.extra["late_histories_trace_validated"] = len(runs)
     chk.sample(dict(boundary_witnesses=len(witnesses()), example=pts[5]))
     chk.sample(dict(history=hs[0][1][:8]))
     chk.rule = ("points (largest, truncated, length): every boundary witness of the three branch predicates for each width at largest in "
